@@ -185,22 +185,64 @@ def det (n : Nat) (M : QMat) : QI := Id.run do
         if t != 0 then A := rowSubMul A i c t
   return d
 
-/-- exact `LDLᴴ` test of positive semidefiniteness of a Hermitian matrix: every pivot is real and
-    `≥ 0`, and a zero pivot has a zero row to its right (trailing block = Schur complement) -/
-def isPSDExact (n : Nat) (M : QMat) : Bool := Id.run do
+/-- result of the exact `LDLᴴ` elimination: the unit lower triangular factor built so far, the pivots, the eliminated matrix at the
+    point where the run stopped, and where it failed: `(k, k)` = pivot `k` is not real or negative; `(k, j)` with `j > k` = pivot `k`
+    is zero but the entry `(k, j)` of the eliminated matrix is not -/
+structure LDL where
+  L : QMat
+  D : Array Rat
+  U : QMat
+  fail : Option (Nat × Nat)
+
+/-- exact `LDLᴴ` elimination of a Hermitian matrix by row operations (the trailing block of the eliminated matrix is the Schur
+    complement): every pivot must be real and `≥ 0`, and a zero pivot must have a zero row to its right -/
+def ldlRun (n : Nat) (M : QMat) : LDL := Id.run do
   let mut A := M
+  let mut L := QMat.identity n
+  let mut D : Array Rat := Array.replicate n 0
   for k in [0:n] do
     let d := A.get k k
-    if d.im != 0 || d.re < 0 then return false
+    if d.im != 0 || d.re < 0 then return ⟨L, D, A, some (k, k)⟩
     if d.re == 0 then
       for j in [k + 1:n] do
-        if A.get k j != 0 then return false
+        if A.get k j != 0 then return ⟨L, D, A, some (k, j)⟩
     else
+      D := D.setIfInBounds k d.re
       let inv := qinv d
       for i in [k + 1:n] do
         let t := A.get i k * inv
-        if t != 0 then A := rowSubMul A i k t
-  return true
+        if t != 0 then
+          L := L.modify i (fun row => row.setIfInBounds k t)
+          A := rowSubMul A i k t
+  return ⟨L, D, A, none⟩
+
+/-- exact `LDLᴴ` test of positive semidefiniteness of a Hermitian matrix: the elimination runs through -/
+def isPSDExact (n : Nat) (M : QMat) : Bool := (ldlRun n M).fail.isNone
+
+/-- solve `Lᴴ x = y` for a unit lower triangular `L` -/
+def backSubst (n : Nat) (L : QMat) (y : Array QI) : Array QI := Id.run do
+  let mut x := y
+  for r in [0:n] do
+    let i := n - 1 - r
+    let mut acc := y[i]!
+    for l in [i + 1:n] do
+      acc := acc - (L.get l i).conj * x[l]!
+    x := x.setIfInBounds i acc
+  return x
+
+/-- a direction `x` with `xᴴ M x < 0` read off a failed elimination: in the eliminated coordinates `y = e_k` for a negative pivot,
+    `y = s·e_k + e_j` with `conj(s)·b = -(c+1)/2` for a zero pivot with `b = U[k,j] ≠ 0`, `c = U[j,j]` (value `-1`); then `x = L⁻ᴴ y`.
+    (Nothing is claimed about this search: the result is only used after the proved checker `npsdCert` has accepted it.) -/
+def psdWitness (n : Nat) (r : LDL) (k j : Nat) : Array QI :=
+  let y0 : Array QI := Array.replicate n 0
+  let y :=
+    if j = k then y0.setIfInBounds k 1
+    else
+      let b := r.U.get k j
+      let c := (r.U.get j j).re
+      let s : QI := QI.smul (-((c + 1) / 2) / (b.re * b.re + b.im * b.im)) b
+      (y0.setIfInBounds k s).setIfInBounds j 1
+  backSubst n r.L y
 
 /-- exact test of positive definiteness of a Hermitian matrix: every pivot is real and `> 0` -/
 def isPDExact (n : Nat) (M : QMat) : Bool := Id.run do
@@ -216,9 +258,12 @@ def isPDExact (n : Nat) (M : QMat) : Bool := Id.run do
 
 /-! ## verified certificates for the definiteness verdicts
 
-The elimination above is not verified; the harness therefore also sends a certificate for every
-definiteness verdict it uses, and these two checkers are proved sound (`Toq.C16.psd_certificate_sound`,
-`Toq.C16.not_psd_certificate_sound`). -/
+The eliminations above carry no correctness theorem of their own.  The definiteness deciders below therefore answer only after one
+of these proved checkers (`Toq.C16.psd_certificate_sound`, `Toq.C16.not_psd_certificate_sound`) has accepted a certificate that the
+model computes itself from the elimination (`isPSDCertified`, `notPSDShift`), which makes their verdicts theorems
+(`Toq.C16.psd_yes_sound`, `psd_no_sound`, `pd_yes_sound`, `pd_no_sound`); the harness sends independent certificates as well.
+`det`, `inverse`, `minors`, `totallyPositiveV`, `pseudoHermitianV` and `isPDExact` are superseded by the proved `detL`, `invL`,
+`totallyPositiveVL`, `pseudoHermitianVL` of `Toq/Model/MatrixPredsDet.lean` (which the driver uses) and are kept as cross-checks. -/
 
 /-- the entries of a `Mat QI` as an `EMat` -/
 def toEMat (A : Mat QI) (n m : Nat) : EMat n m := EMat.ofFn fun i j => A.f i.val j.val
@@ -251,21 +296,39 @@ def qmatToEMat (M : QMat) (n m : Nat) : EMat n m := EMat.ofFn fun i j => M.get i
 
 /-! ## definiteness-type predicates -/
 
+def vecToEMat (x : Array QI) (n : Nat) : EMat n 1 := EMat.ofFn fun i _ => x[i.val]!
+
+/-- `A + μ·I` is not positive semidefinite, established by a direction found in the failed elimination and accepted by the proved
+    checker `npsdCert` -/
+def notPSDShift (A : Mat QI) (μ : Rat) : Bool :=
+  let n := A.r
+  let rb := ldlRun n (QMat.ofMat (addScalarDiag A μ))
+  match rb.fail with
+  | none => false
+  | some (k, j) => npsdCert (toEMat A n n) (vecToEMat (psdWitness n rb k j) n) μ
+
+/-- `A` is positive semidefinite, established by the factorisation `A = L·diag(D)·Lᴴ` of the elimination and accepted by the proved
+    checker `psdCertLDL` -/
+def isPSDCertified (A : Mat QI) : Bool :=
+  let n := A.r
+  let r := ldlRun n (QMat.ofMat A)
+  r.fail.isNone && psdCertLDL (toEMat A n n) (qmatToEMat r.L n n) (fun i => r.D[i.val]!)
+
 /-- `is_positive_semidefinite`: `is_hermitian` and `eigvalsh ≥ -atol`.
-    `yes`: Hermitian and PSD exactly; `no`: not Hermitian by the margin, or `A + μ I` is not PSD
-    (`λ_min < -μ`, `μ = margin·(1+scale)`) -/
+    `yes`: Hermitian and PSD exactly (with a checked `LDLᴴ` certificate); `no`: not Hermitian by the margin, or `A + μ I` is not PSD
+    (`λ_min < -μ`, `μ = margin·(1+scale)`, with a checked negative direction) -/
 def psdV (A : Mat QI) (m : Rat) : Verdict :=
   match hermitianV A m with
   | .no => .no
   | .unknown => .unknown
   | .yes =>
     let A := force A
-    if isPSDExact A.r (QMat.ofMat A) then .yes
-    else if !isPSDExact A.r (QMat.ofMat (addScalarDiag A (m * (1 + maxAbs1 A)))) then .no
+    if isPSDCertified A then .yes
+    else if notPSDShift A (m * (1 + maxAbs1 A)) then .no
     else .unknown
 
 /-- `is_positive_definite`: `np.array_equal(mat, mat.conj().T)` (exact) and Cholesky succeeds.
-    `yes`: exactly Hermitian and `A - μ I` positive definite; `no`: not exactly Hermitian or `A + μ I`
+    `yes`: exactly Hermitian and `A - μ I` positive semidefinite (so `λ_min ≥ μ > 0`); `no`: not exactly Hermitian or `A + μ I`
     not PSD -/
 def pdV (A : Mat QI) (m : Rat) : Verdict :=
   if !isSquare A then .no
@@ -274,8 +337,8 @@ def pdV (A : Mat QI) (m : Rat) : Verdict :=
     if !eqExact A (ctranspose A) then .no
     else
       let μ := m * (1 + maxAbs1 A)
-      if isPDExact A.r (QMat.ofMat (addScalarDiag A (-μ))) then .yes
-      else if !isPSDExact A.r (QMat.ofMat (addScalarDiag A μ)) then .no
+      if isPSDCertified (force (addScalarDiag A (-μ))) then .yes
+      else if notPSDShift A μ then .no
       else .unknown
 
 /-- `is_density`: `is_positive_semidefinite(mat) and np.isclose(np.trace(mat), 1)` -/
